@@ -53,6 +53,10 @@ Section Ref.
     forall j sj t, nth_error sites j = Some sj -> s_field sj = true -> site_ok sj (length cl) = true ->
       assoc (s_fid sj) inp = Some (Hashable t) -> tag_unique cl sj t.
 
+  (* no site is in the region of known finding optional-union-nonetype-variant (there the FIRST miss crashes: the answer
+     depends on the history, see C12_optional_union_refuted) *)
+  Definition no_crash : Prop := forall j sj, nth_error sites j = Some sj -> crash_on_refill sj = false.
+
   Lemma carriers_unique cl s t c : wf cl -> site_ok s (length cl) = true -> tag_unique cl s t ->
     carries cl s c t -> carriers cl s t = [c].
   Proof.
@@ -73,11 +77,11 @@ Section Ref.
 
   Lemma refill_retry_ref cl enter eref top codec k s t x0 :
     wf cl -> enter_ok sites cl enter -> enter_agrees cl enter eref ->
-    key_site sites k = Some s -> site_ok s (length cl) = true -> tag_unique cl s t -> inv sites cl x0 ->
+    key_site sites k = Some s -> site_ok s (length cl) = true -> crash_on_refill s = false -> tag_unique cl s t -> inv sites cl x0 ->
     snd (refill_retry enter top codec k s t x0)
     = match carriers cl s t with [] => ONotFound | c :: _ => keyerr_to_notfound (eref c) end.
   Proof.
-    intros W EO EA K OK U [E RS]. unfold refill_retry.
+    intros W EO EA K OK NC U [E RS]. unfold refill_retry. rewrite NC.
     set (r' := refill (classes x0) s (get_reg k (regs x0))).
     set (rs := if codec then reset_nested top (built (classes x0) s) (regs x0) else regs x0).
     assert (I': inv sites cl (St (classes x0) ((k, r') :: rs))).
@@ -99,11 +103,11 @@ Section Ref.
 
   Lemma field_body_ref cl enter eref top codec k s t x :
     wf cl -> enter_ok sites cl enter -> enter_agrees cl enter eref ->
-    key_site sites k = Some s -> site_ok s (length cl) = true -> tag_unique cl s t -> inv sites cl x ->
+    key_site sites k = Some s -> site_ok s (length cl) = true -> crash_on_refill s = false -> tag_unique cl s t -> inv sites cl x ->
     snd (field_body enter top codec k s t x)
     = match carriers cl s t with [] => ONotFound | c :: _ => keyerr_to_notfound (eref c) end.
   Proof.
-    intros W EO EA K OK U I. unfold field_body.
+    intros W EO EA K OK NC U I. unfold field_body.
     destruct (reg_get t (get_reg k (regs x))) as [c|] eqn:G; [|apply refill_retry_ref; assumption].
     assert (C: carries cl s c t).
     { destruct I as [E RS]. rewrite <- E. eapply RS; [exact K | apply reg_get_In; exact G]. }
@@ -111,7 +115,7 @@ Section Ref.
     destruct (enter x c) as [x1 o]. cbn [snd fst] in *. subst o.
     destruct (eref c) eqn:R; try (rewrite (carriers_unique cl s t c W OK U C); rewrite R; reflexivity).
     (* the variant leaked a KeyError: refill, retry, same class again *)
-    rewrite (refill_retry_ref cl enter eref top codec k s t x1 W EO EA K OK U I1).
+    rewrite (refill_retry_ref cl enter eref top codec k s t x1 W EO EA K OK NC U I1).
     rewrite (carriers_unique cl s t c W OK U C). rewrite R. reflexivity.
   Qed.
 
@@ -126,10 +130,10 @@ Section Ref.
 
   Lemma dispatcher_ref : forall fuel top codec k s x inp present,
     wf (classes x) -> reg_sound sites x -> key_site sites k = Some s ->
-    (exists j, nth_error sites j = Some s) -> uniq_all (classes x) inp ->
+    (exists j, nth_error sites j = Some s) -> uniq_all (classes x) inp -> no_crash ->
     snd (dispatcher acc sites fuel top codec k s x inp present) = ref_disp (classes x) fuel s inp present.
   Proof.
-    induction fuel as [|f IH]; intros top codec k s x inp present W RS K [j Hj] UA; cbn [dispatcher ref_disp]; [reflexivity|].
+    induction fuel as [|f IH]; intros top codec k s x inp present W RS K [j Hj] UA NCR; cbn [dispatcher ref_disp]; [reflexivity|].
     destruct (negb (site_ok s (length (classes x)))) eqn:OK; [reflexivity|].
     apply negb_false_iff in OK.
     set (enter := enter_with acc sites (fun k' s' x' => dispatcher acc sites f top codec k' s' x' inp present) top codec present).
@@ -150,11 +154,11 @@ Section Ref.
       assert (K': key_site sites (if codec then (top, S c) else (j', 0)) = Some sj).
       { destruct codec; unfold key_site; cbn; [rewrite C; reflexivity | eapply config_site_nth; exact C]. }
       rewrite (IH top codec _ sj x1 inp present (eq_ind_r wf W E1) RS1 K');
-        [rewrite E1; reflexivity | exists j'; eapply config_site_nth; exact C | rewrite E1; exact UA]. }
+        [rewrite E1; reflexivity | exists j'; eapply config_site_nth; exact C | rewrite E1; exact UA | exact NCR]. }
     assert (I: inv sites (classes x) x) by (split; [reflexivity | exact RS]).
     destruct (s_field s) eqn:F.
     - destruct (assoc (s_fid s) inp) as [[t|]|] eqn:A; [|reflexivity|reflexivity].
-      rewrite (field_body_ref (classes x) enter eref top codec k s t x W EO EA K OK (UA j s t Hj F OK A) I).
+      rewrite (field_body_ref (classes x) enter eref top codec k s t x W EO EA K OK (NCR j s Hj) (UA j s t Hj F OK A) I).
       reflexivity.
     - apply (loop_body_ref (classes x)); assumption.
   Qed.
@@ -162,14 +166,14 @@ Section Ref.
   (* AFTER ANY HISTORY the answer of the real (stateful) dispatcher is the reference answer - with nested class-level
      dispatchers of either mode, rejecting classes, leaked KeyErrors; only uniqueness of the input's tags is assumed *)
   Theorem decode_ref pre i inp present :
-    uniq_all (defs pre) inp ->
+    uniq_all (defs pre) inp -> no_crash ->
     snd (step acc sites (final acc sites pre) (Decode i inp present)) = Some (ref_decode (defs pre) i inp present).
   Proof.
-    intros UA. pose proof (registry_invariant acc sites pre) as RS. pose proof (wf_defs pre) as W.
+    intros UA NCR. pose proof (registry_invariant acc sites pre) as RS. pose proof (wf_defs pre) as W.
     pose proof (final_classes acc sites pre) as CL. set (x := final acc sites pre) in *.
     rewrite <- CL in W, UA |- *. cbn [step]. unfold decode1, ref_decode.
     destruct (nth_error sites i) as [s|] eqn:Es; [|reflexivity].
-    pose proof (dispatcher_ref (S (S (length (classes x)))) i (s_codec s) (i, 0) s x inp present W RS Es (ex_intro _ i Es) UA) as H.
+    pose proof (dispatcher_ref (S (S (length (classes x)))) i (s_codec s) (i, 0) s x inp present W RS Es (ex_intro _ i Es) UA NCR) as H.
     destruct (dispatcher acc sites (S (S (length (classes x)))) i (s_codec s) (i, 0) s x inp present) as [x' o].
     cbn [snd] in *. rewrite H. reflexivity.
   Qed.
@@ -178,12 +182,12 @@ End Ref.
 (* same classes => same answer, whatever was decoded, created or registered before: history independence at full
    generality (nested dispatchers included) *)
 Corollary history_independent_ref acc sites pre1 pre2 i inp present :
-  defs pre1 = defs pre2 -> uniq_all sites (defs pre1) inp ->
+  defs pre1 = defs pre2 -> uniq_all sites (defs pre1) inp -> no_crash sites ->
   snd (step acc sites (final acc sites pre1) (Decode i inp present))
   = snd (step acc sites (final acc sites pre2) (Decode i inp present)).
 Proof.
-  intros E UA. rewrite (decode_ref acc sites pre1 i inp present UA).
-  rewrite E in UA. rewrite (decode_ref acc sites pre2 i inp present UA). rewrite E. reflexivity.
+  intros E UA NCR. rewrite (decode_ref acc sites pre1 i inp present UA NCR).
+  rewrite E in UA. rewrite (decode_ref acc sites pre2 i inp present UA NCR). rewrite E. reflexivity.
 Qed.
 
 (* computable form of the hypothesis (what the harness evaluates) *)
@@ -208,7 +212,7 @@ Fixpoint ref_agrees (sites: list site) (cl: list cls) (ops: list op) (observed: 
   | [], [] => true
   | Define ps tg tu rq ke :: r, _ :: obs => ref_agrees sites (cl ++ [define cl ps tg tu rq ke]) r obs
   | Decode i inp present :: r, o :: obs =>
-      (if uniq_allb sites cl inp then oout_eqb (Some (ref_decode acc_req sites cl i inp present)) o else true)
+      (if uniq_allb sites cl inp && forallb (fun sj => negb (crash_on_refill sj)) sites then oout_eqb (Some (ref_decode acc_req sites cl i inp present)) o else true)
       && ref_agrees sites cl r obs
   | _ :: r, _ :: obs => ref_agrees sites cl r obs
   | _, _ => false
@@ -216,3 +220,8 @@ Fixpoint ref_agrees (sites: list site) (cl: list cls) (ops: list op) (observed: 
 
 Definition case_ok_ref (c: list site * list op * list (option outcome) * list (option bool)) : bool :=
   let '(sites, ops, expected, flags) := c in case_ok c && ref_agrees sites [] ops expected.
+
+Lemma no_crashb_sound sites : forallb (fun sj => negb (crash_on_refill sj)) sites = true -> no_crash sites.
+Proof.
+  intros H j sj Hj. rewrite forallb_forall in H. apply negb_true_iff. apply H. eapply nth_error_In. exact Hj.
+Qed.
